@@ -84,6 +84,27 @@ def _calls_named(node, *names):
     return [c for c in astx.calls(node) if astx.callee_attr(c) in names]
 
 
+def _mode_split(body, var='mode'):
+    """(if-stmt, fwd statements) of a `mode == 'fwd'` dispatch in a statement list.
+
+    Handles ==/!= against 'fwd'/'rev', if/else and the early-return form (`if mode != 'fwd': ...; return` followed
+    by the forward code)."""
+    for i, st in enumerate(body):
+        if isinstance(st, ast.If) and isinstance(st.test, ast.Compare) and len(st.test.ops) == 1 and \
+                isinstance(st.test.left, ast.Name) and st.test.left.id == var and \
+                astx.const_str(st.test.comparators[0]) in ('fwd', 'rev') and \
+                isinstance(st.test.ops[0], (ast.Eq, ast.NotEq)):
+            isfwd = (astx.const_str(st.test.comparators[0]) == 'fwd') == isinstance(st.test.ops[0], ast.Eq)
+            if isfwd:
+                return st, True, list(st.body)
+            if st.orelse:
+                return st, False, list(st.orelse)
+            if st.body and isinstance(st.body[-1], (ast.Return, ast.Raise)):
+                return st, False, list(body[i + 1:])
+            return st, False, []
+    return None, None, []
+
+
 def _enclosing_for(node):
     out = []
     for a in astx.ancestors(node):
@@ -1286,12 +1307,7 @@ def xfer_flow(repo, out):
     # ---- hop 3: the gather/scatter statement
     xs = Sym(xfer)
     px = _param_names(xfer.node, skip_self=True)
-    fwd = []
-    for st in astx.walk_stmts(xfer.node.body):
-        if isinstance(st, ast.If) and isinstance(st.test, ast.Compare) and len(st.test.ops) == 1 and \
-                astx.const_str(st.test.comparators[0]) in ('fwd', 'rev') and isinstance(st.test.left, ast.Name):
-            isfwd = (astx.const_str(st.test.comparators[0]) == 'fwd') == isinstance(st.test.ops[0], ast.Eq)
-            fwd = st.body if isfwd else st.orelse
+    _, _, fwd = _mode_split(astx.strip_doc(xfer.node.body))
     sets = [c for s2 in fwd for c in _calls_named(s2, 'set_val')]
     if len(sets) != 1:
         out.bad(xfer, xfer.node, 'the fwd branch of DefaultTransfer._transfer must perform exactly one '
@@ -1303,6 +1319,11 @@ def xfer_flow(repo, out):
     idxs = astx.arg(c, 1, 'idxs')
     recv = xs.term(c.func.value, at)
     okk = True
+
+    def held_roles(t):
+        names = {x for x in ('_in_inds', '_out_inds')
+                 if contains(t, lambda y, x=x: _k(y, 'attr') and y[2] == x and y[1] == ('param', 'self'))}
+        return {next(iter(attr_role.get(nm, {None}))) if len(attr_role.get(nm, ())) == 1 else None for nm in names}
     if recv != ('param', px[0]):
         out.bad(xfer, astx.stmt_of(c), f'values are written into `{show(recv)}`; the first argument passed by '
                 f'Group._transfer (`{px[0]}`) is the input vector', key='transfer-fwd-target')
@@ -1312,30 +1333,26 @@ def xfer_flow(repo, out):
                 key='transfer-fwd-scatter')
         okk = False
     else:
-        ti = xs.term(idxs, at)
-        names = {x for x in ('_in_inds', '_out_inds') if contains(ti, lambda y, x=x: _k(y, 'attr') and y[2] == x and y[1] == ('param', 'self'))}
-        r = {next(iter(attr_role.get(nm, {None}))) if len(attr_role.get(nm, ())) == 1 else None for nm in names}
+        r = held_roles(xs.term(idxs, at))
         if r != {'I'}:
             out.bad(xfer, astx.stmt_of(c), f'scatter positions `{astx.src(idxs)}` hold '
                     f"{'output' if r == {'O'} else 'unknown'} positions; the input vector must be written at the "
                     'input positions', key='transfer-fwd-scatter')
             okk = False
-    if val is None or not isinstance(val, ast.Subscript):
+    tv = xs.term(val, at) if val is not None else None          # local aliases are looked through
+    if not _k(tv, 'sub'):
         out.unsure(xfer, astx.stmt_of(c), 'transferred value is not a gather `array[positions]`')
         okk = False
     else:
-        tb = xs.term(val.value, at)
         srcs = set()
-        contains(tb, lambda x: srcs.add(x[1]) if _k(x, 'param') else False)
+        contains(tv[1], lambda x: srcs.add(x[1]) if _k(x, 'param') else False)
         if srcs != {px[1]}:
-            out.bad(xfer, astx.stmt_of(c), f'values are gathered from `{astx.src(val.value)}`, not from the output '
+            out.bad(xfer, astx.stmt_of(c), f'values are gathered from `{show(tv[1])}`, not from the output '
                     f'vector argument `{px[1]}`', key='transfer-fwd-gather')
             okk = False
-        tg = xs.term(val.slice, at)
-        names = {x for x in ('_in_inds', '_out_inds') if contains(tg, lambda y, x=x: _k(y, 'attr') and y[2] == x and y[1] == ('param', 'self'))}
-        r = {next(iter(attr_role.get(nm, {None}))) if len(attr_role.get(nm, ())) == 1 else None for nm in names}
+        r = held_roles(tv[2])
         if r != {'O'}:
-            out.bad(xfer, astx.stmt_of(c), f'gather positions `{astx.src(val.slice)}` hold '
+            out.bad(xfer, astx.stmt_of(c), f'gather positions `{show(tv[2])}` hold '
                     f"{'input' if r == {'I'} else 'unknown'} positions; source values live at the output positions",
                     key='transfer-fwd-gather')
             okk = False
@@ -1344,12 +1361,7 @@ def xfer_flow(repo, out):
     # ---- hop 4: Group._transfer passes (input vector, output vector, mode)
     gt = repo.func(GROUP, 'Group._transfer')
     gs = Sym(gt)
-    fwd_body = []
-    for st in gt.node.body:
-        if isinstance(st, ast.If) and isinstance(st.test, ast.Compare) and isinstance(st.test.left, ast.Name) and \
-                st.test.left.id == 'mode' and astx.const_str(st.test.comparators[0]) in ('fwd', 'rev'):
-            isfwd = (astx.const_str(st.test.comparators[0]) == 'fwd') == isinstance(st.test.ops[0], ast.Eq)
-            fwd_body = st.body if isfwd else st.orelse
+    _, _, fwd_body = _mode_split(astx.strip_doc(gt.node.body))
     for c in [c for st in fwd_body for c in _calls_named(st, '_transfer')]:   # forward (value) transfers only
         if not (isinstance(c.func, ast.Attribute) and astx.path(c.func.value) != 'self'):
             continue
@@ -1385,15 +1397,9 @@ def group_xfer(repo, out):
     sym = Sym(fn)
     g = sym.g
     # the fwd branch
-    fwd_if = None
-    for st in fn.node.body:
-        if isinstance(st, ast.If) and isinstance(st.test, ast.Compare) and isinstance(st.test.left, ast.Name) \
-                and st.test.left.id == 'mode' and astx.const_str(st.test.comparators[0]) in ('fwd', 'rev'):
-            fwd_if = st
+    fwd_if, isfwd, body = _mode_split(astx.strip_doc(fn.node.body))
     if fwd_if is None:
         raise AnalysisError(f"{fn.ident}: `if mode == 'fwd'` not found")
-    isfwd = (astx.const_str(fwd_if.test.comparators[0]) == 'fwd') == isinstance(fwd_if.test.ops[0], ast.Eq)
-    body = fwd_if.body if isfwd else fwd_if.orelse
     xcalls = [c for st in body for c in _calls_named(st, '_transfer')
               if isinstance(c.func, ast.Attribute) and astx.path(c.func.value) != 'self']
     if not xcalls:
@@ -3236,6 +3242,12 @@ selftest(
          "        elif slc.start is not None or slc.stop is None or slc.stop < 0:"),
     Twin('fix-d5-open-start-backwards', INDEXER, "        elif (slc.start is not None and slc.start < 0) or slc.stop is None or slc.stop < 0:",
          "        elif (slc.start is not None and slc.start < 0) or slc.stop is None or slc.stop < 0 or \\\n                (slc.start is None and slc.step < 0):"),
+    Twin('twin-srcidx-early-returns', CONN, "        elif len(src_inds_list) == 1 and src_inds_list[0]._flat_src:\n            return src_inds_list[0].shaped_array()\n        else:\n            root = self.get_root(node)\n            root_meta = self.nodes[root]['attrs']\n            if root_meta.distributed:\n                root_shape = root_meta.global_shape\n            else:\n                root_shape = root_meta.shape\n            arr = np.arange(shape_to_len(root_shape)).reshape(root_shape)\n            for inds in src_inds_list:\n                arr = inds.indexed_val(arr)\n            return np.atleast_1d(arr).ravel()",
+         "\n        if len(src_inds_list) == 1:\n            first = src_inds_list[0]\n            if first._flat_src:\n                return first.shaped_array()\n\n        root_meta = self.nodes[self.get_root(node)]['attrs']\n        root_shape = root_meta.global_shape if root_meta.distributed else root_meta.shape\n        idx_arr = np.arange(shape_to_len(root_shape)).reshape(root_shape)\n        for idxer in src_inds_list:\n            idx_arr = idxer.indexed_val(idx_arr)\n        return np.atleast_1d(idx_arr).ravel()"),
+    Twin('twin-xf-rev-first-early-return', XFER, "        if mode == 'fwd':\n            # this works whether the vecs have multi columns or not due to broadcasting\n            in_vec.set_val(out_vec.asarray()[self._out_inds.flat], self._in_inds)\n\n        else:  # rev\n            out_vec.iadd(np.bincount(self._out_inds, in_vec._get_data()[self._in_inds],\n                                     minlength=out_vec._data.size))",
+         "        if mode != 'fwd':  # rev\n            tgt_vals = in_vec._get_data()[self._in_inds]\n            gathered = np.bincount(self._out_inds, weights=tgt_vals,\n                                   minlength=out_vec._data.size)\n            out_vec.iadd(gathered)\n            return\n\n        src_vals = out_vec.asarray()[self._out_inds.flat]\n        in_vec.set_val(src_vals, self._in_inds)"),
+    Twin('twin-xf-rev-test', XFER, "        if mode == 'fwd':\n            # this works whether the vecs have multi columns or not due to broadcasting\n            in_vec.set_val(out_vec.asarray()[self._out_inds.flat], self._in_inds)\n\n        else:  # rev\n            out_vec.iadd(",
+         "        if mode == 'rev':\n            out_vec.iadd(np.bincount(self._out_inds, in_vec._get_data()[self._in_inds],\n                                     minlength=out_vec._data.size))\n        else:\n            in_vec.set_val(out_vec.asarray()[self._out_inds.flat], self._in_inds)\n        if False:\n            out_vec.iadd("),
     # ---- the repaired defects re-introduced (pre-fix shapes) and the independently seeded changes
     Mutant('revert-d1-shortcut-guard', CONN, "elif len(src_inds_list) == 1 and src_inds_list[0]._flat_src:", "elif len(src_inds_list) == 1:", 'C04.src-index'),
     Mutant('revert-d2-ravel', CONN, "            return np.atleast_1d(arr).ravel()", "            return arr", 'C04.src-index'),
